@@ -84,12 +84,14 @@ impl Monitor for Ir {
         // thorough: every multiple of 8 in [32, 2048]; quick: every 4th of them, offset by the seed
         let len = if ctx.tier == Tier::Quick { 32 + 8 * ((li * 4 + (ctx.seed as usize % 4)) % 253) } else { 32 + 8 * (li % 253) };
         let cc = win.cutoff(len);
-        let variant = if len <= 512 { rng.ui(0, 3) } else { 0 };
+        let variant = if len <= 512 { rng.ui(0, 4) } else { 0 };
         let (fc, r0) = match variant {
             0 => (cc as f32, 1.0),
             1 => ((0.7 * cc) as f32, 1.0),
             2 => ((0.9 * cc) as f32, 1.0),
-            _ => (cc as f32, *rng.pick(&[0.5, 0.25, 0.75, 1.0 / 3.0])),
+            3 => (cc as f32, *rng.pick(&[0.5, 0.25, 0.75, 1.0 / 3.0])),
+            // construction ratios above 1 must leave the cutoff alone
+            _ => (*rng.pick(&[cc as f32, (0.9 * cc) as f32]), *rng.pick(&[1.5, 2.0, 48000.0 / 44100.0, 3.7])),
         };
         let n: usize = if len > 1024 { 8 } else { 16 };
         let desc = J::obj().with("window", J::s(win.name())).with("sinc_len", J::u(len)).with("oversampling", J::u(n)).with("f_cutoff", J::f(fc as f64)).with("construction_ratio", J::f(r0)).with("calculate_cutoff", J::f(cc));
